@@ -108,6 +108,9 @@ pub fn run_all(ctx: &mut Ctx, stream: &str) {
 		Vec<Box<u64>>, [Box<i64>; 3], VecDeque<Rc<u64>>, Vec<Arc<f64>>, Vec<Rc<u32>>, [Arc<u16>; 2], BinaryHeap<Box<u64>>, LinkedList<Rc<i64>>, Vec<Cow<'static, u64>>,
 		GenEnum<u16, NotCodec, u32>, GenEnum<Vec<u8>, NotCodec, u64>, GenEnum<TwinU32, u8, u8>, Vec<GenEnum<bool, NotCodec, u16>>, Box<GenEnum<u8, NotCodec, u32>>,
 		GenStruct<u32, NotCodec>, GenStruct<String, u8>, Option<GenStruct<TwinU8, NotCodec>>,
+		Vec<NonZeroU32>, [NonZeroU16; 3], VecDeque<NonZeroU8>, BinaryHeap<NonZeroU64>, Vec<NonZeroI128>, [NonZeroI8; 2], Option<NonZeroI32>, Vec<Option<NonZeroU8>>,
+		Marker, Vec<Marker>, VecDeque<Marker>, [Marker; 3], (Vec<Marker>, u8), Option<Vec<Marker>>, BTreeSet<Marker>, Vec<(Marker, Marker)>, Vec<[Marker; 2]>,
+		Vec<[u64; 128]>, Vec<[u8; 64]>, VecDeque<[u32; 256]>, Vec<(u128, [u64; 30])>, Option<Vec<[u16; 300]>>,
 		Result<u8, u64>, Result<(), u8>, Result<(), [u8; 32]>, Option<Result<u8, (u16, u16)>>, Result<u64, u8>, [Result<bool, u32>; 2],
 		Option<(u8, u16)>, Result<u32, (u8, u8)>, [(u8, bool); 3], Range<(u8, u8)>, Box<[u16; 4]>, Arc<(u8, u64)>, Rc<(u8, u64)>,
 	);
